@@ -243,22 +243,54 @@ class Ctx:
             self.axioms += [v * v * v == a]
         return v
 
-    def const_value(self, e):
+    def const_value(self, e, _memo=None):
         """mpmath value of a term without free input variables (rationals, pi, abstraction variables of constants), else None"""
         try:
             import mpmath
         except ImportError:
             return None
+        if _memo is None:
+            # cheap DAG walk first: any free input variable => not a constant expression
+            seen, stack = set(), [e]
+            while stack:
+                t = stack.pop()
+                k = t.get_id()
+                if k in seen:
+                    continue
+                seen.add(k)
+                if z3.is_const(t) and t.decl().kind() == z3.Z3_OP_UNINTERPRETED:
+                    ent = self.tfvar.get(k)
+                    if ent is None:
+                        if t.decl().name() != 'pi':
+                            return None
+                    elif isinstance(ent[1], tuple):
+                        return None
+                    else:
+                        stack.append(ent[1])
+                else:
+                    stack.extend(t.children())
+                if len(seen) > 4000:
+                    return None
+            _memo = {}
+        kk = e.get_id()
+        if kk in _memo:
+            return _memo[kk]
+        r_ = self._const_value(e, _memo)
+        _memo[kk] = r_
+        return r_
+
+    def _const_value(self, e, _memo):
+        import mpmath
         mpmath.mp.dps = 60
         if z3.is_rational_value(e):
             return mpmath.mpf(e.numerator_as_long()) / mpmath.mpf(e.denominator_as_long())
         if z3.is_const(e):
-            if str(e) == 'pi':
+            if e.decl().name() == 'pi':
                 return mpmath.pi
             ent = self.tfvar.get(e.get_id())
             if ent is None or isinstance(ent[1], tuple):
                 return None
-            av = self.const_value(ent[1])
+            av = self.const_value(ent[1], _memo)
             if av is None:
                 return None
             try:
@@ -269,7 +301,7 @@ class Ctx:
                 return r if isinstance(r, mpmath.mpf) else None
             except Exception:
                 return None
-        ch = [self.const_value(c) for c in e.children()]
+        ch = [self.const_value(c, _memo) for c in e.children()]
         if any(c is None for c in ch):
             return None
         d = e.decl().kind()
@@ -2082,4 +2114,42 @@ def _svd_stub(m, func, args, kwargs):
         for t_, v_ in zip(ts, m.concrete_vals(o)):
             ctx.env[str(t_)] = v_
     ctx.stubs.add('linalg.svd: contract stub (U, Vh orthogonal with det +-1, S sorted >= 0, A = U diag(S) Vh)')
+    return out
+
+
+@handler('aten.median.default')
+def _median(m, func, args, kwargs):
+    x = args[0]
+    ft = [to_real(t) for t in m.full_terms(x)]
+    if getattr(m.ctx, 'median_havoc', False):
+        # the harness does not use the median: an unconstrained fresh value instead of ordering decisions
+        with _disable_current_modes():
+            out = x.detach().reshape(-1)[0].clone()
+        m.write(out, [m.ctx.fresh('median')])
+        m.ctx.stubs.add('median: unconstrained fresh value (not used by the obligations)')
+        return out
+    perm = _decide_order(m, ft, descending=False)
+    k = (len(ft) - 1) // 2           # torch returns the lower median
+    with _disable_current_modes():
+        out = x.detach().reshape(-1)[perm[k]].clone()
+    m.write(out, [ft[perm[k]]])
+    return out
+
+
+@handler('aten.std.correction', 'aten.var.correction', 'aten.std.default', 'aten.var.default')
+def _std(m, func, args, kwargs):
+    out = func(*args, **kwargs)
+    x = args[0]
+    dim = args[1] if len(args) > 1 and not isinstance(args[1], bool) else kwargs.get('dim', None)
+    corr = kwargs.get('correction', 1)
+    corr = 1 if corr is None else corr
+    rows = _reduce_rows(x, dim)
+    ft = [to_real(t) for t in m.full_terms(x)]
+    res = []
+    for row in rows:
+        n = len(row)
+        mean = z3.Sum([ft[i] for i in row]) / n
+        var = z3.Sum([(ft[i] - mean) * (ft[i] - mean) for i in row]) / (n - corr)
+        res.append(m.ctx.tfun('sqrt', var) if 'std' in str(func) else simp(var))
+    m.write(out, res)
     return out
